@@ -135,13 +135,13 @@ def SsetModel (s : SArr) (ix : Index) (v : SVal) : Except Err SArr :=
     else if !SequalBonds s x then .error .valueError
     else match ix with
       | .int i =>
-        match normInt s.depth i with
+        if s.boxes.isSome && !x.boxes.isSome then .error .valueError
+        else match normInt s.depth i with
         | .error e => .error e
         | .ok m =>
-          if s.boxes.isSome != x.boxes.isSome then .error unmodelled
-          else .ok { s with atoms := (List.range s.atoms.length).map (fun i =>
-                                { s.at i with co := (s.at i).co.set m ((x.at i).co.getD 0 0) })
-                            boxes := s.boxes.map (fun b => b.set m ((x.boxes.getD []).getD 0 0)) }
+          .ok { s with atoms := (List.range s.atoms.length).map (fun i =>
+                           { s.at i with co := (s.at i).co.set m ((x.at i).co.getD 0 0) })
+                       boxes := s.boxes.map (fun b => b.set m ((x.boxes.getD []).getD 0 0)) }
       | _ => .error .typeError
   | _ => .error .valueError
 
@@ -248,7 +248,7 @@ def SrepeatArr (s : SArr) (k : Nat) (toks : List Tok) : Except Err SArr :=
 
 def SfromTemplate (s : SArr) (coord : List (List Tok)) (box : Option (List Tok)) : Except Err SArr :=
   if !(coord.all (fun c => c.length == s.atoms.length)) then .error .valueError
-  else if boxDepthBad box coord.length then .error unmodelled
+  else if boxDepthBad box coord.length then .error .valueError
   else .ok { s with stack := true
                     atoms := (List.range s.atoms.length).map (fun i => ⟨(s.at i).ann, coord.map (·.getD i 0)⟩)
                     depth := coord.length, boxes := box }
@@ -273,12 +273,12 @@ def SdelAnnotation (s : SArr) (k : String) : Except Err SArr :=
 def SsetCoord (s : SArr) (coord : List (List Tok)) : Except Err SArr :=
   if !s.stack && coord.length != 1 then .error unmodelled
   else if !(coord.all (fun c => c.length == s.atoms.length)) then .error .valueError
-  else if s.boxes.isSome && coord.length != s.depth then .error unmodelled
+  else if s.boxes.isSome && coord.length != s.depth then .error .valueError
   else .ok { s with atoms := (List.range s.atoms.length).map (fun i => { s.at i with co := coord.map (·.getD i 0) })
                     depth := coord.length }
 
 def SsetBox (s : SArr) (box : Option (List Tok)) : Except Err SArr :=
-  if boxDepthBad box s.depth then .error unmodelled else .ok { s with boxes := box }
+  if boxDepthBad box s.depth then .error (boxErr s.stack) else .ok { s with boxes := box }
 
 def SsetBonds (s : SArr) (bs : Option (List Bond)) : Except Err SArr :=
   match bs with
@@ -289,7 +289,7 @@ def SmkNew (stack : Bool) (n : Nat) (cols : List (String × List Tok)) (coord : 
     (box : Option (List Tok)) (bonds : Option (List Bond)) : Except Err SArr :=
   if !(cols.all (fun p => p.2.length == n)) || !(coord.all (fun c => c.length == n)) then .error unmodelled
   else if !stack && coord.length != 1 then .error unmodelled
-  else if boxDepthBad box coord.length then .error unmodelled
+  else if boxDepthBad box coord.length then .error (boxErr stack)
   else if bondsBad n bonds then .error unmodelled
   else .ok { stack := stack
              names := cols.foldl (fun d p => insert p.1 () d) mandHdr
